@@ -1,14 +1,15 @@
 SPECIFICATION Spec
 CONSTANTS
- MaxP = 47
- MaxQ = 23
- MaxK = 7
+ MaxP = 23
+ MaxQ = 11
+ MaxK = 3
  Margin = 4
- Variants <- A_com
+ Variants <- A_comq
  NaiveMaxP = 0
  NaiveVariants <- None
+ AccMaxP = 13
  NbrMaxP = 23
- NbrVariants <- N_com
+ NbrVariants <- N_comq
  Mode = "nbr"
  CheckArith = FALSE
  SortedBases = TRUE
